@@ -9,7 +9,7 @@
 //  3. builds /verif/bin/c35.test with `go1.26.8 test -c`,
 //  4. runs it (`-test.run ^TestVerifC35$`, tier via VERIF_TIER) and exits with its exit code.
 //
-// Usage: c35 [C35] [quick|thorough] [mut=<name>]
+// Usage: c35 [C35] [quick|thorough] [--replay <replays/C35_n.json>] [mut=<name>]
 // mut=<name> (detection demo only): additionally applies a named textual mutation to the auth.go COPY, builds
 // bin/c35_mut.test and makes the harness write its evidence/replays under /tmp/c35_mut_<name> instead of /verif.
 package main
@@ -96,9 +96,11 @@ func main() {
 		}
 	}
 	tier := os.Getenv("VERIF_TIER")
-	mutName := ""
-	for _, a := range os.Args[1:] {
+	mutName, replay := "", ""
+	for i, a := range os.Args[1:] {
 		switch {
+		case a == "--replay" && i+2 < len(os.Args):
+			replay = os.Args[i+2]
 		case a == "quick" || a == "thorough":
 			tier = a
 		case strings.HasPrefix(a, "mut="):
@@ -210,6 +212,12 @@ func main() {
 	run := exec.Command(out, "-test.run", "^TestVerifC35$", "-test.timeout", "0")
 	run.Dir = root
 	run.Env = append(env, "VERIF_TIER="+tier)
+	if replay != "" {
+		if abs, err := filepath.Abs(replay); err == nil {
+			replay = abs
+		}
+		run.Env = append(run.Env, "C35_REPLAY="+replay)
+	}
 	if mutName != "" {
 		mroot := "/tmp/c35_mut_" + mutName
 		os.RemoveAll(mroot)
